@@ -11,10 +11,12 @@ def fill(claim, na):
               "runs, used+free totals); a static proxy would be a frozen expression")
     claim("C17",
           "must-dataflow over CFG branch facts (half-open bound dominates every index/translated forward); "
-          "empty-optional edge must reach exit only via throw",
+          "empty-optional edge must reach exit only via throw; linear forms over accessors for the extents each Volume "
+          "is created with",
           "Decides the bound clause for all inputs: every override of DataAccess::read_block and the sector cache "
           "index or forward only under `arg < count` on every CFG path, and a failed body read can only throw. "
-          "Does not decide that Opus volume extents are computed correctly (runtime arithmetic).",
+          "Each Opus volume's window is (start, length) from the disc catalogue and is what Volume::Access checks "
+          "against. The arithmetic inside OpusDiscCatalogue (lengths from successive starts) is not decided.",
           "Trusts clang's CFG/branch semantics and that the compared member is the object's sector count.",
           "DESIGN.md 3/C17")
     claim("C07",
@@ -33,11 +35,13 @@ def fill(claim, na):
           "clang CFG-based uninitialised-value analysis in both configurations; getopt table/handler/short-string "
           "agreement folded from the AST; exit-status value set; diagnose-on-failure classification from main; "
           "cursor/remaining-length must-facts and per-block pairing in the token decoders; type-range intervals "
-          "refined by dominating comparisons for input-dependent subscripts and fread lengths",
+          "refined by dominating comparisons for input-dependent subscripts and the lengths of library calls on fixed "
+          "arrays; path-sensitive resource typestate (allocate/release/NULL) for locally released pointers",
           "Decides, for every command line and input, that option state is initialised in both builds, that no option "
           "handler can see a NULL optarg or an unset long index, that main returns 0 or 1 without exit/abort and never "
           "silently, that every byte read through the token cursor is covered by a remaining-length guard, and that "
-          "input-dependent indices stay in range. Does not decide full memory safety of the C units.",
+          "input-dependent indices and lengths stay in range, and that no decoder/stream/allocation is used after its "
+          "release. Does not decide full memory safety of the C units.",
           "Trusts clang's -Wuninitialized family and getopt_long semantics.",
           "DESIGN.md 3/C08")
     claim("C19",
@@ -84,10 +88,12 @@ def fill(claim, na):
           "who-may-create census over the resolved AST (stream constructions, C and POSIX file-creating calls, "
           "std::filesystem modifiers, open modes) against a confirmed table, cross-checked in the thorough tier with "
           "the external-symbol census of the linked LLVM IR; interprocedural string taint from catalogue bytes to "
-          "created paths with a structural sanitiser recogniser",
+          "created paths with a structural sanitiser recogniser; constant-suffix folding and identity-test dominance for "
+          "`a created file is not an input image`; must-analysis `the destination ends in a slash`",
           "Decides for all catalogues and commands that only the confirmed sites can create files, that images are "
-          "opened read-only, and that catalogue bytes cannot put a '/' into a created path. Not decided: that the "
-          "destination is not itself the image.",
+          "opened read-only, that catalogue bytes cannot put a '/' into a created path, that the leaf is appended to a "
+          "directory ending in '/', and that a created file cannot be an input image (one known finding: the body "
+          "file of extract-files).",
           "Trusts the table of file-modifying library entry points and that a '/'-free relative name stays in its directory.",
           "DESIGN.md 3/C12")
     claim("C18",
@@ -124,10 +130,11 @@ def fill(claim, na):
           "DESIGN.md 3/C01")
     claim("C03",
           "bit-provenance comparison of the line-number decoder with the expression parsed from doc/bbcbasic.5; "
-          "def-use of stream positions and stdin; structural rule on the indentation counter",
+          "def-use of stream positions and stdin; structural rule on the indentation counter; scan-extent rule on the "
+          "loop-token counter",
           "Decides that GOTO/GOSUB targets are decoded by the documented formula for all 2^24 operand values, that "
           "file and standard input cannot be treated differently, and that indentation is only adjusted by the "
-          "documented amounts. Token tables, framing, quoting and number formatting are not decided.",
+          "documented amounts computed from exactly the bytes of the line. Token tables, framing, quoting and number formatting are not decided.",
           "Trusts the man page's expression as the specification, as the property does.",
           "DESIGN.md 3/C03")
     claim("C13",
@@ -152,26 +159,30 @@ def fill(claim, na):
     claim("C16",
           "mutation census of the drive tables; must-facts (with kills on selector updates) and dominance for every "
           "connect_internal call; structural rule on check_sequence_fits' unconditional occupancy tests; key-provenance "
-          "of table lookups",
+          "of table lookups; must-facts at every advance of a drive-number search; interval analysis of drive-number "
+          "narrowing conversions",
           "Decides one clause for every option sequence: an attached surface is never overwritten, moved or hidden, and "
-          "lookups use the requested selector. The allocation order over histories (lowest free number, n and n+2, "
-          "policy switches) is a search over runtime state and is not decided.",
+          "lookups use the requested selector, the search starts at 0 and skips only numbers found occupied or "
+          "unsuitable, and an out-of-range drive number cannot wrap onto another drive. The full allocation function "
+          "over histories (n and n+2, policy switches) is a search over runtime state and is not decided.",
           "Trusts std::map semantics and value semantics of selectors.",
           "DESIGN.md 3/C16")
     claim("C04",
           "must-dataflow bound and divisor rules on FileView::read_block; short-read rule on the block presenter; "
           "table agreement of the MMB reader with doc/mmb.5 (status switch folded per value, size constants); "
-          "dependency analysis of the slot offset; shape rule on the two-sided view parameters",
+          "dependency analysis of the slot offset; shape rule on the two-sided view parameters; polynomial identity "
+          "(normal forms with integer-division atoms) for the stride formula",
           "Decides structural clauses for every container, geometry and slot: out-of-surface reads fail, no short block "
           "is served, MMB statuses/sizes are the documented ones, a slot's offset depends on its number only, and the "
-          "interleaved/non-interleaved views have the documented take/leave/skip shape. The stride arithmetic inside "
-          "FileView::read_block and geometry probing are not decided.",
+          "interleaved/non-interleaved views have the documented take/leave/skip shape, and the position forwarded "
+          "by FileView::read_block is skip + (x div take)(take+leave) + x mod take. Geometry probing is not decided.",
           "Trusts doc/mmb.5 as the layout specification.",
           "DESIGN.md 3/C04")
     claim("C10",
           "must-facts on the hint logic (extension tests only on a name with .gz stripped); folding of the zlib "
           "error switch and window-bits constant; CFG exit analysis of the inflate loop; zlib entry-point census; "
-          "member-continuation rule; opener selection rule",
+          "member-continuation rule with EOF-evidence reachability; opener selection rule; bound of every buffer "
+          "growth in both FileAccess::read implementations",
           "Decides structural clauses for every image and .gz stream: compressed and uncompressed names get the same "
           "identification hints, only gzip framing is accepted, every zlib error raises, the loop ends only at the "
           "end of the last member, integrity checks are not disabled. Equality of outputs is not executed.",
